@@ -595,6 +595,59 @@ func alterations(in *injector, b base, duty core.Duty, distinct func(string)) {
 			in.universal("justification-reordered", b.From, w2, b.Name)
 		}
 	}
+	// cross-element reuse: an authentic sub-message followed by copies that keep its signature bytes but
+	// alter signed fields (a verifier that caches "already verified" by signature would admit them)
+	{
+		dutyOf := core.DutyFromProto(b.W.GetMsg().GetDuty())
+		var seedJ *pbv1.QBFTMsg
+		if js := b.W.GetJustification(); len(js) > 0 {
+			seedJ = js[rng.Intn(len(js))]
+		} else {
+			seedJ = e.mkMsg(3, dutyOf, other, 1, zero32(), 0, zero32())
+		}
+		alter := []struct {
+			name string
+			mut  func(m *pbv1.QBFTMsg)
+		}{
+			{"peer_idx", func(m *pbv1.QBFTMsg) { m.PeerIdx = (m.GetPeerIdx() + 1) % int64(e.n) }},
+			{"round", func(m *pbv1.QBFTMsg) { m.Round++ }},
+			{"type", func(m *pbv1.QBFTMsg) { m.Type = m.GetType()%5 + 1 }},
+			{"duty", func(m *pbv1.QBFTMsg) { m.Duty = core.DutyToProto(otherDuty) }},
+		}
+		for _, a := range alter {
+			for _, where := range []string{"after", "before"} {
+				w := proto.Clone(b.W).(*pbv1.QBFTConsensusMsg)
+				if len(w.Justification)+2 > 2*e.n {
+					w.Justification = w.Justification[:2*e.n-2]
+				}
+				cp := proto.Clone(seedJ).(*pbv1.QBFTMsg)
+				a.mut(cp) // signature bytes kept
+				if where == "after" {
+					w.Justification = append(w.Justification, proto.Clone(seedJ).(*pbv1.QBFTMsg), cp)
+				} else {
+					w.Justification = append(w.Justification, cp, proto.Clone(seedJ).(*pbv1.QBFTMsg))
+				}
+				in.mustReject("justification-copy-with-reused-signature", "justification[]."+a.name, b.From, w, b.Name)
+			}
+		}
+		{ // the top-level message's own signature reused on an altered copy inside the justifications
+			w := proto.Clone(b.W).(*pbv1.QBFTConsensusMsg)
+			if len(w.Justification)+1 > 2*e.n {
+				w.Justification = w.Justification[:2*e.n-1]
+			}
+			cp := proto.Clone(b.W.GetMsg()).(*pbv1.QBFTMsg)
+			cp.PeerIdx = (cp.GetPeerIdx() + 1) % int64(e.n)
+			w.Justification = append(w.Justification, cp)
+			in.mustReject("justification-copy-with-reused-signature", "justification[].peer_idx(top-level signature)", b.From, w, b.Name)
+		}
+		{ // duplicated authentic justification: not forbidden by the statement
+			w := proto.Clone(b.W).(*pbv1.QBFTConsensusMsg)
+			if len(w.Justification)+2 <= 2*e.n {
+				w.Justification = append(w.Justification, proto.Clone(seedJ).(*pbv1.QBFTMsg), proto.Clone(seedJ).(*pbv1.QBFTMsg))
+				in.universal("justification-duplicated", b.From, w, b.Name)
+			}
+		}
+	}
 	if len(b.W.GetValues()) > 0 {
 		{ // referenced value removed
 			w := proto.Clone(b.W).(*pbv1.QBFTConsensusMsg)
